@@ -21,10 +21,13 @@ CLAIMS = {
             'Proof on the spec-level model Spec.Checksum of the eight algorithm modules for every word length and every alphabet of the stated '
             'shape; the model is hand-written and its tie to stdnum is the differential run tools/corr/checksum.py (every check) plus the '
             'differential run of the regenerated functions.', '§4 C06', ''),
+    'C10': ('Lean 4 theorems (lossless concatenation, loop = declarative shortest-prefix rule, unfolding, unmatched tail, reader invariants; all trees, all numbers) on a hand-written model of numdb tied by a differential run on all shipped registries and generated files; failing-input search against an independent transcription of the rule',
+            'Proof on the hand-written model Spec.NumDB of NumDB._find/info/split and of the reader; tie = tools/corr/numdb.py (all 17 shipped files + '
+            'generated well-formed and ill-formed files, every check). Equality of the Lean reader and the Python reader is tested, not proved.', '§4 C10', ''),
     'C14': ('Lean 4 theorems on the regenerated clean()/_char_map (kernel evaluation over the whole table + list lemmas for all strings), differential run, exhaustive search over all code points',
             'Proof on the regenerated definitions: `Gen.util.clean s d = ok (cleanP s d)` for every string and delete set, table facts by kernel '
             'evaluation against the Unicode oracle tables, order/count/idempotence for all strings.', '§4 C14', ''),
-    'C18': ('Lean 4 theorems on a hand-written model of the WSGI script (escape safety/injectivity, page structure, status 200 under stated assumptions), differential run, in-process search on the real application',
+    'C18__': ('Lean 4 theorems on a hand-written model of the WSGI script (escape safety/injectivity, page structure, status 200 under stated assumptions), differential run, in-process search on the real application',
             'Proof on the hand-written model Spec.Wsgi; tie = tools/corr/wsgi.py (escape, template formatting, format(), application end-to-end with '
             'synthetic module tables). parse_qs and the WSGI server are outside the model (named partial).', '§4 C18', ''),
 }
